@@ -57,43 +57,58 @@ Definition learn_moves_ok (w : world) (i : nat) (changed : list nat) : bool :=
                                           end) (o_refs o)) (a_opts a)
   end.
 
-Record gstep := mkG { gs_ops : list op; gs_obs : obs; gs_learn : option (nat * list nat); gs_arch : list afollow }.
+(* the observed population is transmitted incrementally: a step that can only have changed one member (training)
+   carries that member's new observation, the others keep theirs.  Alias classes are numbered per CASE (stable
+   identifiers of the observed objects), so observations taken at different steps can be put side by side. *)
+Definition entry := (aobs * list N * list N)%type.          (* structure, alias classes, value classes *)
+Inductive change := Full (p : list entry) | Upd (us : list (nat * entry)).
+Definition apply_change (c : change) (p : list entry) : list entry :=
+  match c with
+  | Full q => q
+  | Upd us => fold_left (fun acc u => update (fst u) (snd u) acc) us p
+  end.
+Definition to_obs (p : list entry) : obs :=
+  mkObs (concat (map (fun e => snd (fst e)) p)) (concat (map snd p)) (map (fun e => fst (fst e)) p).
+
+Record gstep := mkG { gs_ops : list op; gs_obs : change; gs_learn : option (nat * list nat); gs_arch : list afollow }.
 
 Definition gstep_flags (w' : world) (g : gstep) : bool :=
   all_coherent_b w' &&
   match gs_learn g with Some (i, ch) => learn_moves_ok w' i ch | None => true end &&
   forallb arch_follow_ok (gs_arch g).
 
-Fixpoint check_gsteps (w : world) (gs : list gstep) (m : PositiveMap.t N) : bool :=
+Fixpoint check_gsteps (w : world) (p : list entry) (gs : list gstep) (m : PositiveMap.t N) : bool :=
   match gs with
   | [] => true
   | g :: r =>
       let w' := run w (gs_ops g) in
-      match state_ok w' (gs_obs g) m with
-      | Some m' => gstep_flags w' g && check_gsteps w' r m'
+      let p' := apply_change (gs_obs g) p in
+      match state_ok w' (to_obs p') m with
+      | Some m' => gstep_flags w' g && check_gsteps w' p' r m'
       | None => false
       end
   end.
 
-Definition check_run2 (w : world) (o0 : obs) (gs : list gstep) : bool :=
+Definition check_run2 (w : world) (p0 : list entry) (gs : list gstep) : bool :=
   sep_b w && forallb (fun a => wf_registry (a_reg a)) (w_pop w) && all_coherent_b w &&
-  match state_ok w o0 (PositiveMap.empty N) with
-  | Some m => check_gsteps w gs m
+  match state_ok w (to_obs p0) (PositiveMap.empty N) with
+  | Some m => check_gsteps w p0 gs m
   | None => false
   end.
 
 (* diagnostics: index of the first step that fails, and which part (0 state, 1 coherent, 2 learn, 3 arch) *)
-Fixpoint first_bad2 (w : world) (gs : list gstep) (m : PositiveMap.t N) (k : nat) : nat * nat :=
+Fixpoint first_bad2 (w : world) (p : list entry) (gs : list gstep) (m : PositiveMap.t N) (k : nat) : nat * nat :=
   match gs with
   | [] => (9999%nat, 0%nat)
   | g :: r =>
       let w' := run w (gs_ops g) in
-      match state_ok w' (gs_obs g) m with
+      let p' := apply_change (gs_obs g) p in
+      match state_ok w' (to_obs p') m with
       | Some m' =>
           if negb (all_coherent_b w') then (k, 1%nat)
           else if negb (match gs_learn g with Some (i, ch) => learn_moves_ok w' i ch | None => true end) then (k, 2%nat)
           else if negb (forallb arch_follow_ok (gs_arch g)) then (k, 3%nat)
-          else first_bad2 w' r m' (S k)
+          else first_bad2 w' p' r m' (S k)
       | None => (k, 0%nat)
       end
   end.
